@@ -300,10 +300,88 @@ def evaluate(ctx, world, cases, stream):
                            'disagreement': problem, 'theorem': THEOREM})
 
 
+def probe_digest():
+    """digest of what both loaders make of one fixed document with non-ASCII text (run here and in a child under a hostile environment)"""
+    import hashlib
+    import random
+    import hpotk
+    rng = random.Random(7)
+    doc = gen_doc(rng)
+    doc['nodes'].append({'id': BASE + 'HP_0009999', 'type': 'CLASS', 'lbl': 'Anomalie é ß 病 😀',
+                         'meta': {'definition': {'val': 'déf ü', 'xrefs': ['PMID:1']}, 'comments': ['ç one'],
+                                  'synonyms': [{'pred': 'hasExactSynonym', 'val': 'syn ñ'}]}})
+    d = tempfile.mkdtemp(prefix='verif-c05-probe-')
+    out = {}
+    try:
+        p = os.path.join(d, 'doc.json')
+        with open(p, 'w', encoding='utf-8') as fh:
+            json.dump({'graphs': [doc]}, fh, ensure_ascii=False)
+        for full in (False, True):
+            try:
+                o = (hpotk.load_ontology if full else hpotk.load_minimal_ontology)(p)
+                out['full' if full else 'minimal'] = hashlib.sha256(repr(dump_impl(o, full)).encode('utf-8')).hexdigest()[:16]
+            except Exception as e:  # noqa
+                out['full' if full else 'minimal'] = f'raises {type(e).__name__}'
+    finally:
+        shutil.rmtree(d, ignore_errors=True)
+    return out
+
+
+def environment_probe(ctx):
+    import common
+    here = probe_digest()
+    there = common.run_in_child('c05', 'probe_digest', common.HOSTILE_ENV)
+    ctx.case(['environment-probe'], True, 'both loaders under an ASCII locale / UTF-8 mode off (child interpreter)', sample=here)
+    if here != there:
+        ctx.violation('environment', {'case': {'kind': 'environment', 'env': common.HOSTILE_ENV}, 'impl': {'this process': here, 'hostile environment': there},
+                                      'theorem': 'Hpv.Props.C05.terms_spec (what is loaded is a function of the document)'})
+
+
+def huge_document(ctx, rng):
+    """more than 2^16 terms: a star below HP:0000001 (the model is not involved; parents / children are checked against the document)"""
+    import hpotk
+    n = 66200
+    ids = rng.sample(range(2, 9000000), n)
+    nodes = [{'id': BASE + 'HP_0000001', 'type': 'CLASS', 'lbl': 'All'}] + [{'id': BASE + f'HP_{i:07d}', 'type': 'CLASS', 'lbl': f't{i}'} for i in ids]
+    edges = [{'sub': BASE + f'HP_{i:07d}', 'pred': 'is_a', 'obj': BASE + 'HP_0000001'} for i in ids]
+    mid = ids[:200]
+    edges += [{'sub': BASE + f'HP_{a:07d}', 'pred': 'is_a', 'obj': BASE + f'HP_{b:07d}'} for a, b in zip(mid[1:], mid[:-1])]
+    d = tempfile.mkdtemp(prefix='verif-c05-huge-')
+    ctx.case(['huge-document', n], True, 'huge document (66 200 terms)', sample={'terms': n + 1, 'edges': len(edges)})
+    problem = None
+    try:
+        p = os.path.join(d, 'huge.json')
+        with open(p, 'w', encoding='utf-8') as fh:
+            json.dump({'graphs': [{'id': 'hp', 'nodes': nodes, 'edges': edges, 'meta': {}}]}, fh)
+        o = hpotk.load_minimal_ontology(p)
+        if len(o) != n + 1:
+            problem = f'{len(o)} terms loaded from {n + 1} CLASS nodes'
+        else:
+            want_par = {}
+            for e in edges:
+                want_par.setdefault(e['sub'][len(BASE):].replace('_', ':'), set()).add(e['obj'][len(BASE):].replace('_', ':'))
+            for i in rng.sample(ids, 300) + mid[:50] + sorted(ids)[-60:] + sorted(ids)[:60]:
+                c = f'HP:{i:07d}'
+                got = {t.value for t in o.graph.get_parents(c)}
+                if got != want_par[c]:
+                    problem = f'parents of {c}: {sorted(got)} != {sorted(want_par[c])} stated in the document'
+                    break
+            if problem is None and len(set(o.graph.get_children('HP:0000001'))) != n:
+                problem = f'the root has {len(set(o.graph.get_children("HP:0000001")))} children, the document states {n}'
+    except Exception as e:  # noqa
+        problem = f'raises {type(e).__name__}: {str(e)[:200]}'
+    finally:
+        shutil.rmtree(d, ignore_errors=True)
+    if problem:
+        ctx.violation('huge-document', {'case': {'kind': 'huge', 'terms': n + 1}, 'impl': problem, 'theorem': 'Hpv.Props.C05.edges_spec'})
+
+
 def run(ctx):
     rng = ctx.rng
     thorough = ctx.tier == 'thorough'
     conformance(ctx)
+    environment_probe(ctx)
+    huge_document(ctx, rng)
     world = tempfile.mkdtemp(prefix='verif-c05-')
     try:
         cases = []
@@ -331,6 +409,12 @@ def run(ctx):
 
 def replay(ctx, data):
     c = data['case']
+    if c.get('kind') == 'environment':
+        environment_probe(ctx)
+        return
+    if c.get('kind') == 'huge':
+        huge_document(ctx, ctx.rng)
+        return
     if c['kind'] == 'recogniser':
         conformance(ctx)
         return
